@@ -160,6 +160,11 @@ class MRe(Model):
     DOTALL = _re.DOTALL
     MULTILINE = _re.MULTILINE
     IGNORECASE = _re.IGNORECASE
+    S = _re.S
+    M = _re.M
+    I = _re.I
+    X = _re.X
+    VERBOSE = _re.VERBOSE
 
     def search(self, pat, text, flags=0):
         try:
@@ -183,6 +188,51 @@ class MRe(Model):
 
     def split(self, pat, text):
         return _re.split(pat, text)
+
+    def compile(self, pat, flags=0):
+        try:
+            return MPattern(_re.compile(pat, flags))
+        except _re.error as e:
+            raise ModelRaise("re.error", str(e))
+
+    def finditer(self, pat, text, flags=0):
+        return iter([MMatch(m) for m in _re.finditer(pat, text, flags)])
+
+    def fullmatch(self, pat, text, flags=0):
+        m = _re.fullmatch(pat, text, flags)
+        return MMatch(m) if m else None
+
+    def escape(self, s):
+        return _re.escape(s)
+
+
+class MPattern(Model):
+    def __init__(self, p):
+        self._p = p
+
+    def search(self, text, *a):
+        m = self._p.search(text, *a)
+        return MMatch(m) if m else None
+
+    def match(self, text, *a):
+        m = self._p.match(text, *a)
+        return MMatch(m) if m else None
+
+    def fullmatch(self, text, *a):
+        m = self._p.fullmatch(text, *a)
+        return MMatch(m) if m else None
+
+    def findall(self, text, *a):
+        return self._p.findall(text, *a)
+
+    def finditer(self, text, *a):
+        return iter([MMatch(m) for m in self._p.finditer(text, *a)])
+
+    def sub(self, repl, text):
+        return self._p.sub(repl, text)
+
+    def split(self, text):
+        return self._p.split(text)
 
 
 # ---------------------------------------------------------------------------
